@@ -211,5 +211,322 @@ theorem sub_org (T : TableOK E) (a b : Ty) (hpa : proper a = true) (hpb : proper
     · exact T.refl _
     · exact hL
 
+/-! ### everything with a tuple (frozenset) origin is below `Tuple[Any, ...]` (`FrozenSet[Any]`) -/
+
+theorem sub_tupV_any (T : TableOK E) (a : Ty) (hp : proper a = true) (hw : wf E a = true)
+    (hL : E.L (orgT E a) E.kTuple = true) : sub E kf a (.tupV .any) = true := by
+  cases a with
+  | any => simp [proper] at hp
+  | union _ => simp [proper] at hp
+  | cls k => simp only [orgT] at hL; simp [sub, against, tupleCheck, AKind.org, AKind.args, isAny, hL]
+  | tupB => simp [sub, against, tupleCheck, AKind.org, AKind.args, isAny, T.refl]
+  | tup xs =>
+    cases xs with
+    | nil => simp [sub, against, tupleCheck, AKind.org, AKind.args, isAny, T.refl, subFns]
+    | cons x xs =>
+      have h2 := all_subFns E kf .any (x :: xs)
+      simp only [subFns] at h2
+      have h3 := subL_to_any E kf (x :: xs)
+      rw [← h2] at h3
+      simp [sub, against, tupleCheck, AKind.org, AKind.args, T.refl, subFns]
+      simpa using h3
+  | tupV x => simp [sub, against, tupleCheck, AKind.org, AKind.args, T.refl, sub_to_any]
+  | fsB => simp [orgT, T.fsTup] at hL
+  | fs x => simp [orgT, T.fsTup] at hL
+  | fn k args => simp [orgT, T.fnTup k (wf_fn_isFn E hw)] at hL
+
+theorem sub_fs_any (T : TableOK E) (a : Ty) (hp : proper a = true) (hw : wf E a = true)
+    (hL : E.L (orgT E a) E.kFs = true) : sub E kf a (.fs .any) = true := by
+  cases a with
+  | any => simp [proper] at hp
+  | union _ => simp [proper] at hp
+  | cls k => simp only [orgT] at hL; simp [sub, against, fsCheck, AKind.org, AKind.args, isAny, hL]
+  | fsB => simp [sub, against, fsCheck, AKind.org, AKind.args, isAny, T.refl]
+  | fs x => simp [sub, against, fsCheck, AKind.org, AKind.args, T.refl, sub_to_any]
+  | tupB => simp [orgT, T.tupFs] at hL
+  | tup xs => simp [orgT, T.tupFs] at hL
+  | tupV x => simp [orgT, T.tupFs] at hL
+  | fn k args => simp [orgT, T.fnFs k (wf_fn_isFn E hw)] at hL
+
+theorem isAny_eq {z : Ty} (h : isAny z = true) : z = .any := by
+  cases z <;> simp [isAny] at h; rfl
+
+theorem safe_tup_head {kf : Bool} {z : Ty} {zs : List Ty} (h : Safe kf (.tup (z :: zs))) :
+    kf = true → isAny z = false := by
+  intro hk
+  have := h hk
+  simp only [kfFree, Bool.and_eq_true, Bool.not_eq_true'] at this
+  exact this.1.1
+
+theorem safe_tup_mem {kf : Bool} {zs : List Ty} (h : Safe kf (.tup zs)) : ∀ z ∈ zs, Safe kf z := by
+  intro z hz hk
+  have := h hk
+  cases zs with
+  | nil => cases hz
+  | cons y ys =>
+    simp only [kfFree, Bool.and_eq_true] at this
+    exact kfFreeL_mem (xs := y :: ys) (by simp only [kfFreeL, Bool.and_eq_true]; exact ⟨this.1.2, this.2⟩) hz
+
+theorem safe_tupV {kf : Bool} {z : Ty} (h : Safe kf (.tupV z)) : Safe kf z := by
+  intro hk; have := h hk; simpa [kfFree] using this
+
+theorem safe_fs {kf : Bool} {z : Ty} (h : Safe kf (.fs z)) : Safe kf z := by
+  intro hk; have := h hk; simpa [kfFree] using this
+
+theorem safe_fn_mem {kf : Bool} {k : Nat} {zs : List Ty} (h : Safe kf (.fn k zs)) : ∀ z ∈ zs, Safe kf z := by
+  intro z hz hk
+  have := h hk
+  simp only [kfFree] at this
+  exact kfFreeL_mem this hz
+
+theorem safe_union_mem {kf : Bool} {zs : List Ty} (h : Safe kf (.union zs)) : ∀ z ∈ zs, Safe kf z := by
+  intro z hz hk
+  have := h hk
+  simp only [kfFree] at this
+  exact kfFreeL_mem this hz
+
+theorem wf_tup_mem {xs : List Ty} (h : wf E (.tup xs) = true) : ∀ x ∈ xs, wf E x = true := by
+  intro x hx; simp only [wf] at h; exact wfL_mem h hx
+
+theorem wf_fn_mem {k : Nat} {xs : List Ty} (h : wf E (.fn k xs) = true) : ∀ x ∈ xs, wf E x = true := by
+  intro x hx; simp only [wf, Bool.and_eq_true] at h; exact wfL_mem h.2 hx
+
+theorem wf_union_mem {xs : List Ty} (h : wf E (.union xs) = true) :
+    ∀ x ∈ xs, wf E x = true ∧ proper x = true := by
+  intro x hx; simp only [wf, Bool.and_eq_true] at h
+  exact ⟨wfL_mem h.1 hx, List.all_eq_true.mp h.2 x hx⟩
+
+/-- the induction hypothesis handed to the core step -/
+def IHyp (n : Nat) : Prop :=
+  ∀ a b c : Ty, size a + size b + size c < n →
+    wf E a = true → wf E b = true → wf E c = true → Safe kf b → Safe kf c →
+    sub E kf a b = true → sub E kf b c = true → sub E kf a c = true
+
+theorem trans_core (T : TableOK E) (a b c : Ty) (IH : IHyp E kf (size a + size b + size c))
+    (hpa : proper a = true) (hpb : proper b = true) (hpc : proper c = true)
+    (hwa : wf E a = true) (hwb : wf E b = true) (hwc : wf E c = true)
+    (hsb : Safe kf b) (hsc : Safe kf c)
+    (hab : sub E kf a b = true) (hbc : sub E kf b c = true) : sub E kf a c = true := by
+  have horg := sub_org E kf T a b hpa hpb hwa hwb hab
+  cases c with
+  | any => simp [proper] at hpc
+  | union _ => simp [proper] at hpc
+  | cls k =>
+    rw [sub_cls_right E kf a k hpa]
+    rw [sub_cls_right E kf b k hpb] at hbc
+    exact T.trans _ _ _ horg hbc
+  | tupB =>
+    rw [(sub_bare_right E kf a hpa).1]
+    rw [(sub_bare_right E kf b hpb).1] at hbc
+    exact T.trans _ _ _ horg hbc
+  | fsB =>
+    rw [(sub_bare_right E kf a hpa).2.2]
+    rw [(sub_bare_right E kf b hpb).2.2] at hbc
+    exact T.trans _ _ _ horg hbc
+  | tup zs =>
+    cases zs with
+    | nil =>
+      rw [(sub_bare_right E kf a hpa).2.1]
+      rw [(sub_bare_right E kf b hpb).2.1] at hbc
+      exact T.trans _ _ _ horg hbc
+    | cons z zs =>
+      obtain ⟨y, ys, rfl, hyz⟩ := inv_tup E kf T b z zs hpb hwb (safe_tup_head hsc) hbc
+      obtain ⟨x, xs, rfl, hxy⟩ := inv_tup E kf T a y ys hpa hwa (safe_tup_head hsb) hab
+      have h2 := all2_subFns E kf (x :: xs) (z :: zs)
+      simp only [subFns] at h2
+      simp [sub, against, tupleCheck, AKind.org, AKind.args, subFns, T.refl]
+      have : all2r (sub E kf) (x :: xs) (z :: zs) = true := by
+        refine all2r_trans (x :: xs) (y :: ys) (z :: zs) ?_ hxy hyz
+        intro x' hx' y' hy' z' hz' h1 h2
+        refine IH x' y' z' ?_ (wf_tup_mem E hwa x' hx') (wf_tup_mem E hwb y' hy') (wf_tup_mem E hwc z' hz')
+          (safe_tup_mem hsb y' hy') (safe_tup_mem hsc z' hz') h1 h2
+        have := size_mem hx'; have := size_mem hy'; have := size_mem hz'
+        simp only [size]; omega
+      rw [← h2] at this
+      simpa [all2] using this
+  | tupV z =>
+    obtain ⟨hLb, hcases⟩ := inv_tupV E kf T b z hpb hwb hbc
+    have hLa : E.L (orgT E a) E.kTuple = true := T.trans _ _ _ horg hLb
+    rcases hcases with ⟨_, hany⟩ | ⟨y, ys, rfl, hys⟩ | ⟨y, rfl, hyz⟩
+    · rw [isAny_eq hany]; exact sub_tupV_any E kf T a hpa hwa hLa
+    · obtain ⟨x, xs, rfl, hxy⟩ := inv_tup E kf T a y ys hpa hwa (safe_tup_head hsb) hab
+      have h2 := all_subFns E kf z (x :: xs)
+      simp only [subFns] at h2
+      have : (x :: xs).all (fun x' => sub E kf x' z) = true := by
+        rw [List.all_eq_true]
+        intro x' hx'
+        obtain ⟨y', hy', hr⟩ := all2r_all z (x :: xs) (y :: ys) hxy x' hx'
+        refine IH x' y' z ?_ (wf_tup_mem E hwa x' hx') (wf_tup_mem E hwb y' hy') (by simpa [wf] using hwc)
+          (safe_tup_mem hsb y' hy') (safe_tupV hsc) hr (hys y' hy')
+        have := size_mem hx'; have := size_mem hy'
+        simp only [size]; omega
+      rw [← h2] at this
+      simp [sub, against, tupleCheck, AKind.org, AKind.args, subFns, T.refl]
+      simpa using this
+    · obtain ⟨_, hc2⟩ := inv_tupV E kf T a y hpa hwa hab
+      rcases hc2 with ⟨_, hany⟩ | ⟨x, xs, rfl, hxs⟩ | ⟨x, rfl, hxy⟩
+      · rw [isAny_eq hany] at hyz
+        rw [(sub_any_iff E kf z).mp hyz]
+        exact sub_tupV_any E kf T a hpa hwa hLa
+      · have h2 := all_subFns E kf z (x :: xs)
+        simp only [subFns] at h2
+        have : (x :: xs).all (fun x' => sub E kf x' z) = true := by
+          rw [List.all_eq_true]
+          intro x' hx'
+          refine IH x' y z ?_ (wf_tup_mem E hwa x' hx') (by simpa [wf] using hwb) (by simpa [wf] using hwc)
+            (safe_tupV hsb) (safe_tupV hsc) (hxs x' hx') hyz
+          have := size_mem hx'
+          simp only [size]; omega
+        rw [← h2] at this
+        simp [sub, against, tupleCheck, AKind.org, AKind.args, subFns, T.refl]
+        simpa using this
+      · have := IH x y z (by simp only [size]; omega) (by simpa [wf] using hwa) (by simpa [wf] using hwb)
+          (by simpa [wf] using hwc) (safe_tupV hsb) (safe_tupV hsc) hxy hyz
+        simp [sub, against, tupleCheck, AKind.org, AKind.args, T.refl, this]
+  | fs z =>
+    obtain ⟨hLb, hcases⟩ := inv_fs E kf T b z hpb hwb hbc
+    have hLa : E.L (orgT E a) E.kFs = true := T.trans _ _ _ horg hLb
+    rcases hcases with ⟨_, hany⟩ | ⟨y, rfl, hyz⟩
+    · rw [isAny_eq hany]; exact sub_fs_any E kf T a hpa hwa hLa
+    · obtain ⟨_, hc2⟩ := inv_fs E kf T a y hpa hwa hab
+      rcases hc2 with ⟨_, hany⟩ | ⟨x, rfl, hxy⟩
+      · rw [isAny_eq hany] at hyz
+        rw [(sub_any_iff E kf z).mp hyz]
+        exact sub_fs_any E kf T a hpa hwa hLa
+      · have := IH x y z (by simp only [size]; omega) (by simpa [wf] using hwa) (by simpa [wf] using hwb)
+          (by simpa [wf] using hwc) (safe_fs hsb) (safe_fs hsc) hxy hyz
+        simp [sub, against, fsCheck, AKind.org, AKind.args, T.refl, this]
+  | fn kc cargs =>
+    have hc := wf_fn_isFn E hwc
+    rcases inv_fn E kf T b kc cargs hpb hwb hc hbc with rfl | ⟨kb, bargs, rfl, hLbc, hbcargs⟩
+    · exact hab
+    · have hb := wf_fn_isFn E hwb
+      rcases inv_fn E kf T a kb bargs hpa hwa hb hab with rfl | ⟨ka, aargs, rfl, hLab, habargs⟩
+      · exact hbc
+      · simp only [sub, against, fnCheck]
+        split
+        · rfl
+        · simp only [Bool.and_eq_true, subFns_length]
+          refine ⟨T.trans _ _ _ hLab hLbc, ?_⟩
+          by_cases h1 : aargs.length = bargs.length
+          · by_cases h2 : bargs.length = cargs.length
+            · have hne : (aargs.length != cargs.length) = false := by simp [h1, h2]
+              rw [hne]; simp only [Bool.false_eq_true, if_false]
+              rw [all2_subFns]
+              have e1 : (aargs.length != bargs.length) = false := by simp [h1]
+              have e2 : (bargs.length != cargs.length) = false := by simp [h2]
+              rw [e1] at habargs; rw [e2] at hbcargs
+              simp only [Bool.false_eq_true, if_false] at habargs hbcargs
+              refine all2r_trans aargs bargs cargs ?_ habargs hbcargs
+              intro x' hx' y' hy' z' hz' r1 r2
+              refine IH x' y' z' ?_ (wf_fn_mem E hwa x' hx') (wf_fn_mem E hwb y' hy') (wf_fn_mem E hwc z' hz')
+                (safe_fn_mem hsb y' hy') (safe_fn_mem hsc z' hz') r1 r2
+              have := size_mem hx'; have := size_mem hy'; have := size_mem hz'
+              simp only [size]; omega
+            · have e2 : (bargs.length != cargs.length) = true := by simp [h2]
+              rw [e2] at hbcargs; simp only [if_true] at hbcargs
+              have hc0 : cargs = [] := by simpa using hbcargs
+              subst hc0
+              have hne : (aargs.length != ([] : List Ty).length) = true := by
+                have h3 : bargs.length ≠ 0 := by simpa using h2
+                simp [h1, h3]
+              rw [hne]; simp
+          · have e1 : (aargs.length != bargs.length) = true := by simp [h1]
+            rw [e1] at habargs; simp only [if_true] at habargs
+            have hb0 : bargs = [] := by simpa using habargs
+            subst hb0
+            by_cases h2 : ([] : List Ty).length = cargs.length
+            · have hc0 : cargs = [] := by
+                cases cargs with
+                | nil => rfl
+                | cons _ _ => simp at h2
+              subst hc0
+              have hne : (aargs.length != ([] : List Ty).length) = true := by
+                have h3 : aargs.length ≠ 0 := by simpa using h1
+                simp [h3]
+              rw [hne]; simp
+            · have e2 : (([] : List Ty).length != cargs.length) = true := by simpa using h2
+              rw [e2] at hbcargs; simp only [if_true] at hbcargs
+              have hc0 : cargs = [] := by simpa using hbcargs
+              subst hc0
+              simp at h2
+
+theorem proper_cases (t : Ty) : t = .any ∨ (∃ xs, t = .union xs) ∨ proper t = true := by
+  cases t <;> simp [proper]
+
+theorem sub_trans_aux (T : TableOK E) : ∀ n, IHyp E kf n := by
+  intro n
+  induction n with
+  | zero => intro a b c h; omega
+  | succ n ih =>
+    intro a b c hlt hwa hwb hwc hsb hsc hab hbc
+    have IH : IHyp E kf (size a + size b + size c) := fun a' b' c' h => ih a' b' c' (by omega)
+    rcases proper_cases a with rfl | ⟨xs, rfl⟩ | hpa
+    · -- a = Any: then b = Any
+      rw [(sub_any_iff E kf b).mp hab] at hbc; exact hbc
+    · -- a = Union: every member
+      rw [sub_union, List.all_eq_true] at hab ⊢
+      intro x hx
+      refine IH x b c ?_ (wf_union_mem E hwa x hx).1 hwb hwc hsb hsc (hab x hx) hbc
+      have := size_mem hx; simp only [size]; omega
+    · rcases proper_cases b with rfl | ⟨ys, rfl⟩ | hpb
+      · -- b = Any: c = Any
+        rw [(sub_any_iff E kf c).mp hbc]; exact sub_to_any E kf a
+      · -- b = Union: a is below one member, every member is below c
+        rw [sub_union_right E kf a ys hpa, List.any_eq_true] at hab
+        obtain ⟨y, hy, hay⟩ := hab
+        rw [sub_union, List.all_eq_true] at hbc
+        refine IH a y c ?_ hwa (wf_union_mem E hwb y hy).1 hwc (safe_union_mem hsb y hy) hsc hay (hbc y hy)
+        have := size_mem hy; simp only [size]; omega
+      · rcases proper_cases c with rfl | ⟨zs, rfl⟩ | hpc
+        · exact sub_to_any E kf a
+        · rw [sub_union_right E kf b zs hpb, List.any_eq_true] at hbc
+          obtain ⟨z, hz, hbz⟩ := hbc
+          rw [sub_union_right E kf a zs hpa, List.any_eq_true]
+          refine ⟨z, hz, IH a b z ?_ hwa hwb (wf_union_mem E hwc z hz).1 hsb (safe_union_mem hsc z hz) hab hbz⟩
+          have := size_mem hz; simp only [size]; omega
+        · exact trans_core E kf T a b c IH hpa hpb hpc hwa hwb hwc hsb hsc hab hbc
+
 end
+
+/-! ## the theorems -/
+
+/-- **Transitivity of `deep_issubclass` as coded** (`kf = true`), for well-formed type expressions over
+    a leaf table satisfying `TableOK`, under the explicit decidable hypothesis that the middle and the
+    right type contain no fixed-length tuple type whose first parameter is a literal `Any`. -/
+theorem sub_trans (E : Env) (T : TableOK E) (a b c : Ty)
+    (hwa : wf E a = true) (hwb : wf E b = true) (hwc : wf E c = true)
+    (hkb : kfFree b = true) (hkc : kfFree c = true)
+    (hab : sub E true a b = true) (hbc : sub E true b c = true) : sub E true a c = true :=
+  sub_trans_aux E true T _ a b c (Nat.lt_succ_self _) hwa hwb hwc (fun _ => hkb) (fun _ => hkc) hab hbc
+
+/-- Transitivity, unconditionally, of the relation with the finding's clause answering False. -/
+theorem sub_trans_repaired (E : Env) (T : TableOK E) (a b c : Ty)
+    (hwa : wf E a = true) (hwb : wf E b = true) (hwc : wf E c = true)
+    (hab : sub E false a b = true) (hbc : sub E false b c = true) : sub E false a c = true :=
+  sub_trans_aux E false T _ a b c (Nat.lt_succ_self _) hwa hwb hwc (fun h => by cases h) (fun h => by cases h) hab hbc
+
+/-- a small environment: leaf 0 = object, 1 = tuple, 2 = frozenset, 3 = int, 10 = a funsor class -/
+def Eex : Env :=
+  { L := fun a b => a == b || (b == 0), kTuple := 1, kFs := 2, isFn := fun k => k == 10,
+    raisesNonClass := fun _ => true, kVar := 99 }
+
+/-- hypotheses of `sub_trans` are satisfiable, with non-trivial premises. -/
+example : wf Eex (.tup [.cls 3, .tup [.cls 3]]) = true ∧ kfFree (.tupV (.union [.cls 3, .tupB])) = true ∧
+    sub Eex true (.tup [.cls 3, .tup [.cls 3]]) (.tupV (.union [.cls 3, .tupB])) = true ∧
+    sub Eex true (.tupV (.union [.cls 3, .tupB])) (.tupV .any) = true := by decide
+
+/-- **KF-tuple-subclass**: without the hypothesis transitivity fails, on the code as written:
+    `Tuple[int,int] ≤ Tuple ≤ Tuple[Any]` but `Tuple[int,int] ≰ Tuple[Any]`. -/
+theorem sub_trans_witness :
+    sub Eex true (.tup [.cls 3, .cls 3]) .tupB = true ∧ sub Eex true .tupB (.tup [.any]) = true ∧
+    sub Eex true (.tup [.cls 3, .cls 3]) (.tup [.any]) = false := by decide
+
+/-- with the clause answering False the same chain is cut at its middle link. -/
+theorem sub_trans_witness_repaired : sub Eex false .tupB (.tup [.any]) = false := by decide
+
+/-- `Any` inside a `Union` breaks reflexivity (`subcls is Any → cls is Any` is tested per member):
+    hence the hypothesis `uok` of `sub_refl`. -/
+theorem sub_refl_witness : sub Eex true (.union [.any, .cls 3]) (.union [.any, .cls 3]) = false := by decide
+
 end FV.Props.C16
